@@ -12,6 +12,7 @@ disjoint ownership; C07 provenance / flagging; C09 decisions; C10 use-*;
 C11 decision diffs well-formed; C13 inputs unchanged.
 """
 import argparse
+import os
 import itertools
 
 from sx.values import json_identical, land, lnot, lor, implies, snapshot
@@ -47,13 +48,27 @@ INS_RUNS = {"l": [None, (("N2", "N3", "N1"), 0), (("N1", "N2"), 0), (("N4", "N1"
 
 
 def mk_args(merge_strategy="inline", input_strategy=None, output_strategy=None,
-            ignore_transients=True):
+            ignore_transients=True, log_level="INFO"):
     return argparse.Namespace(merge_strategy=merge_strategy, input_strategy=input_strategy,
                               output_strategy=output_strategy, ignore_transients=ignore_transients,
-                              log_level="INFO")
+                              log_level=log_level)
 
 
 _counter = [0]
+_ORIG_PATH = [os.environ.get("PATH", "")]
+_SCRATCH = []
+
+
+def _diff_only_path():
+    if not _SCRATCH:
+        import atexit
+        import shutil
+        import tempfile
+        d = tempfile.mkdtemp(prefix="verif_path_")
+        os.symlink(shutil.which("diff", path=_ORIG_PATH[0]), os.path.join(d, "diff"))
+        atexit.register(shutil.rmtree, d, True)
+        _SCRATCH.append(d)
+    return _SCRATCH[0]
 
 
 def install_env(tool):
@@ -68,8 +83,16 @@ def install_env(tool):
             return shutil.which(name)
         if tool == "diff3":
             return None if name == "git" else shutil.which(name)
+        if tool == "diffonly":
+            return None if name in ("git", "diff3") else shutil.which(name)
         return None if name in ("git", "diff3", "diff") else shutil.which(name)
     pp.which = which
+    # "diffonly": a machine with plain diff but neither git nor diff3 -- the
+    # subprocesses see a PATH that holds nothing but `diff`
+    if tool == "diffonly":
+        os.environ["PATH"] = _diff_only_path()
+    else:
+        os.environ["PATH"] = _ORIG_PATH[0]
     _counter[0] = 0
 
     def cell_id():
@@ -129,6 +152,25 @@ def run_merge(b, l, r, args):
     return merge_notebooks(b, l, r, args)
 
 
+def _stale_records(nb):
+    out = []
+    for md in [nb.get("metadata", {})] + [c.get("metadata", {}) for c in nb.get("cells", [])]:
+        if "nbdime-conflicts" in md:
+            out.append(repr(md["nbdime-conflicts"]))
+    for c in nb.get("cells", []):
+        for name, val in sorted((c.get("attachments") or {}).items()):
+            if name.startswith(("LOCAL_", "REMOTE_")):
+                out.append((name, repr(val)))
+    return out
+
+
+def stale_record_touched(b, l, r):
+    """Input class of F27: a conflict record of an earlier merge that base
+    carries was removed or changed by one of the sides."""
+    rb = _stale_records(b)
+    return bool(rb) and (_stale_records(l) != rb or _stale_records(r) != rb)
+
+
 def source_lines(nb):
     out = []
     for c in nb.get("cells", []):
@@ -159,11 +201,21 @@ def merge_obligations(E, b, l, r, args, tool, props, known, info=None):
         where = "%s:%d %s" % (tb[-1].filename.split("/nbdime/")[-1], tb[-1].lineno, tb[-1].name)
         sig = "%s: %s @ %s" % (type(ex).__name__, str(ex)[:120], where)
         fid = common.match_exception_finding(known, sig)
+        if fid == "F27" and not stale_record_touched(b, l, r):
+            fid = None      # outside the recorded input class
         if fid:
             E.known(fid)
             return None
         if "C03" in props or "C09" in props or "C10" in props or "C07" in props:
             E.fail("merge-raised", sig)
+        if "C11" in props:
+            # the decisions may exist even though applying them failed
+            from nbdime.merging.notebooks import decide_notebook_merge
+            try:
+                decisions = decide_notebook_merge(b, l, r, args)
+            except Exception:  # noqa
+                return None
+            decision_obligations_nb(E, b, l, r, None, decisions, ("C11",), known, False)
         return None
     conflicted = any(d.conflict for d in decisions)
     E.nontrivial(len(decisions) > 0)
@@ -277,16 +329,30 @@ def _walk_entries(diff):
 # ------------------------------------------------------------------ factories
 def make_default(templates, acts="ACTS_CODE", ins=(1, 1), nbacts=("keep",), ids=(0, 1), tool="git",
                  strat=("inline", None, None, True), props=("C03",), known=(),
-                 sym=("ec", "md", "json", "minor"), conflict_only=False, runs=False, sameid=False):
-    """One strategy configuration, full product of local x remote scripts."""
+                 sym=("ec", "md", "json", "minor"), conflict_only=False, runs=False, sameid=False,
+                 warm=False):
+    """One strategy configuration, full product of local x remote scripts.
+    warm: the merge under test is the second one of its process -- a first,
+    concrete, conflicted merge (with or without cell ids) has run before it."""
     acts_ = globals()[acts]
 
     def h(E):
         install_env(tool)
         F16_EXCLUDE[0] = "F16" in known
+        if warm:
+            w = E.choice("warm", 3)
+            if w:
+                wctx = G.Ctx(E, w == 1, sym=())
+                wb = G.base_notebook(wctx, ("codeA", "md"))
+                wl = G.derive(wctx, wb, "l", ["keep", "src1"], {1: "N1"}, "keep")
+                wr = G.derive(wctx, wb, "r", ["keep", "src2"], {1: "N2"}, "keep")
+                try:
+                    run_merge(G.finalize(wb), G.finalize(wl), G.finalize(wr), mk_args(*strat))
+                except Exception:  # noqa  (not the merge under test)
+                    pass
         src = INS_RUNS if runs else INS_SIDE
         if sameid:
-            src = {"l": [None, ("Nxc", 0)], "r": [None, ("Nxm", 0), ("Nxc", 0)]}
+            src = {"l": [None, ("Nxc", 0), ("Nxe", 0), ("Nxt", 0)], "r": [None, ("Nxm", 0), ("Nxc", 0), ("Nxt", 0), ("Nxe", 0)]}
         b, l, r, info = gen_triple(
             E, templates, acts_, acts_,
             src["l"] if ins[0] else [None], src["r"] if ins[1] else [None],
@@ -386,9 +452,14 @@ ACTS_NUMS = ["keep", "nums_add", "nums_append", "nums_replace"]
 ACTS_NUL = ["keep", "src1", "src2", "del"]
 ACTS_LONG = ["keep", "src1", "src2", "src3", "src4", "src7", "src8", "src9", "del"]
 ACTS_OUTS = ["keep", "out_add_front", "out_ec", "out_del", "out_del_last", "out_edit", "out_add", "out_add2", "rerun",
-             "rerun2", "out_edit_add", "out_edit2_add2", "out_edit_md", "edit_rerun", "del"]
+             "rerun2", "out_edit_add", "out_edit2_add2", "out_edit_md", "edit_rerun", "del", "out_edit_ec", "out_edit2_ec"]
 ACTS_EMPTYSRC = ["keep", "src1", "src7", "src4"]
-ACTS_LINES = ["keep", "src1", "src8", "src9", "src3"]
+ACTS_LINES = ["keep", "src1", "src8", "src9", "src3", "src10", "src11"]
+ACTS_WARM = ["keep", "del", "src1", "src2"]
+ACTS_WS = ["keep", "src12", "src13", "src1"]
+ACTS_EMPTY = ["keep", "src1", "src2", "src3", "del"]
+ACTS_ATT_IN = ["keep", "att_edit", "src1", "att_add"]
+ACTS_DISP = ["keep", "out_edit", "out_edit2", "out_add"]
 ACTS_F13 = ["src1", "src4"]
 ACTS_F24 = ["src3", "src4"]
 ACTS_TAGS = ["tag_front", "tag_back"]
@@ -415,7 +486,11 @@ def scenario_shards(tier, tool, kw):
     add("unicode", templates=("codeU",), acts="ACTS_LINES", ins=(0, 0))
     add("lines", templates=("codeA",), acts="ACTS_LINES", ins=(0, 0))
     add("intkeys", templates=("mdAtt1",), acts="ACTS_INTKEYS", ins=(0, 0))
+    add("second-merge", templates=("codeA",), acts="ACTS_WARM", ins=(1, 1), warm=True)
     add("stale-md", templates=("codeStale",), acts="ACTS_STALE", ins=(0, 0))
+    add("stale-md0", templates=("codeStale0",), acts="ACTS_STALE", ins=(0, 0))
+    add("empty-src", templates=("codeE",), acts="ACTS_EMPTY", ins=(0, 0), ids=(1,))
+    add("whitespace", templates=("codeA",), acts="ACTS_WS", ins=(0, 0), ids=(1,))
     add("stale-att", templates=("mdStale",), acts="ACTS_STALE", ins=(0, 0))
     add("type", templates=("codeA",), acts="ACTS_TYPE", ins=(0, 0), ids=(1,))
     add("nums", templates=("codeNums",), acts="ACTS_NUMS", ins=(0, 0))
@@ -478,7 +553,7 @@ ACTS_LINES_SIM = ["keep", "src1", "src8", "src9", "src5"]      # similar edits i
 
 
 def make_use(templates, mode="merge", acts="ACTS_SMALL", ins=(0, 0), ids=(0, 1), tools=("git",),
-             props=("C10",), known=(), sym=("ec", "md")):
+             props=("C10",), known=(), sym=("ec", "md"), mixed=False):
     """mode 'merge': --merge-strategy s; 'input' / 'output': s given as input /
     output strategy with scripts that can only conflict inside sources /
     outputs.  Compared with the mergetool decisions with every conflicted
@@ -495,12 +570,16 @@ def make_use(templates, mode="merge", acts="ACTS_SMALL", ins=(0, 0), ids=(0, 1),
             E, templates, acts_, acts_,
             INS_SIDE["l"] if ins[0] else [None], INS_SIDE["r"] if ins[1] else [None],
             ("keep",), ids, sym)
+        root = "inline"
+        if mixed and mode != "merge" and E.choice("root", 2):
+            # the general strategy names another side than the specific one
+            root = USE[(USE.index(s) + 1) % 3]
         if mode == "merge":
             args = mk_args(s, None, None, tr)
         elif mode == "input":
-            args = mk_args("inline", s, None, tr)
+            args = mk_args(root, s, None, tr)
         else:
-            args = mk_args("inline", None, s, tr)
+            args = mk_args(root, None, s, tr)
         try:
             m1, d1 = run_merge(b, l, r, args)
             d0 = decide_notebook_merge(b, l, r, mk_args("mergetool", None, None, tr))
@@ -556,6 +635,11 @@ def use_shards(tier, props, known):
                            ("transient", "codeTr", "ACTS_TRANSIENT"), ("long", "codeL", "ACTS_LONG"),
                            ("emptysrc", "codeA", "ACTS_EMPTYSRC")]:
         out.append(("make_use", "use-scn-%s" % name, dict(templates=(tm,), mode="merge", acts=acts, **kw)))
+    out.append(("make_use", "use-scn-empty-src", dict(templates=("codeE",), mode="merge", acts="ACTS_EMPTY", ids=(1,), **kw)))
+    out.append(("make_use", "use-scn-input-att", dict(templates=("mdAtt",), mode="input", acts="ACTS_ATT_IN", mixed=True, **kw)))
+    out.append(("make_use", "use-scn-output-img", dict(templates=("codeImgS",), mode="output", acts="ACTS_DISP", mixed=True, **kw)))
+    out.append(("make_use", "use-scn-output-img-m", dict(templates=("codeImgS",), mode="merge", acts="ACTS_DISP", **kw)))
+    out.append(("make_use", "use-scn-output-disp", dict(templates=("codeDisp",), mode="output", acts="ACTS_DISP", **kw)))
     out.append(("make_use", "use-scn-output-outs", dict(templates=("codeRes2",), mode="output", acts="ACTS_OUT2", **kw)))
     out.append(("make_use", "use-scn-input-lines", dict(templates=("codeA",), mode="input", acts="ACTS_LINES_SIM", **kw)))
     pairs = [("codeA", "codeB")] + ([("codeA", "codeA"), ("md", "codeRes2")] if tier == "thorough" else [])
@@ -573,7 +657,7 @@ def use_shards(tier, props, known):
 CLI_CONFIGS = [("inline", None, None, True), ("use-base", None, None, True), ("use-local", None, None, True),
                ("use-remote", None, None, True), ("inline", "use-local", "remove", False),
                ("inline", None, "clear-all", True), ("mergetool", None, None, True),
-               ("inline", None, "remove", True)]
+               ("inline", None, "remove", True), ("inline", None, None, True, "DEBUG")]
 
 
 def make_nblaws(templates, acts="ACTS_CODE", ins=1, nbacts=("keep",), ids=(0, 1), configs=(0,),
@@ -584,7 +668,8 @@ def make_nblaws(templates, acts="ACTS_CODE", ins=1, nbacts=("keep",), ids=(0, 1)
         install_env("git")
         cfg = CLI_CONFIGS[configs[E.choice("cfg", len(configs))] if len(configs) > 1 else configs[0]]
         with_ids = ids[E.choice("ids", len(ids))] if len(ids) > 1 else ids[0]
-        ctx = G.Ctx(E, bool(with_ids), sym=sym)
+        # DEBUG logging renders every value as text: concrete leaves there
+        ctx = G.Ctx(E, bool(with_ids), sym=() if "DEBUG" in cfg else sym)
         base = G.base_notebook(ctx, templates)
         script = []
         for i, t in enumerate(templates):
@@ -599,8 +684,11 @@ def make_nblaws(templates, acts="ACTS_CODE", ins=1, nbacts=("keep",), ids=(0, 1)
         X = G.derive(ctx, base, "l", script, insx, nba)
         b, x = G.finalize(base), G.finalize(X)
         args = mk_args(*cfg)
-        cases = [("identity", b, b, b, b), ("adopt-local", b, x, b, x),
-                 ("adopt-remote", b, b, x, x), ("agreement", b, x, x, x)]
+        # expected results are copies taken before any merge ran (a merge that
+        # edits its inputs in place must not move the goalposts)
+        b0, x0 = snapshot(b), snapshot(x)
+        cases = [("identity", b, b, b, b0), ("adopt-local", b, x, b, x0),
+                 ("adopt-remote", b, b, x, x0), ("agreement", b, x, x, x0)]
         for name, bb, ll, rr, want in cases:
             try:
                 m, ds = run_merge(bb, ll, rr, args)
@@ -626,7 +714,7 @@ def make_nbsymmetry(templates, acts="ACTS_SMALL", ins=(0, 0), ids=(0, 1), config
         b, l, r, info = gen_triple(
             E, templates, acts_, acts_,
             INS_SIDE["l"] if ins[0] else [None], INS_SIDE["r"] if ins[1] else [None],
-            ("keep",), ids, sym)
+            ("keep",), ids, () if "DEBUG" in cfg else sym)
         args = mk_args(*cfg)
         if "F16" in known:
             # F16: a value newly set by local and one newly set by remote are
@@ -663,7 +751,7 @@ def nblaw_shards(tier, props, known):
     kw = dict(props=tuple(props), known=tuple(known))
     out = []
     singles = QUICK_TEMPLATES if tier == "quick" else fam_nbdiff.ALL_TEMPLATES
-    cfgs = (0, 2, 4) if tier == "quick" else tuple(range(len(CLI_CONFIGS)))
+    cfgs = (0, 2, 4, 8) if tier == "quick" else tuple(range(len(CLI_CONFIGS)))
     for t in singles:
         acts = "ACTS_MD" if G.TEMPLATES[t]["type"] == "markdown" else "ACTS_CODE"
         out.append(("make_nblaws", "nblaw-%s" % t,
@@ -794,7 +882,7 @@ def owned_shards(tier, props, known):
 
 # ------------------------------------------------------------------ C07 flag clause
 def make_flag(templates, which=0, other_acts="ACTS_INS", tools=TOOLS, props=("C07",), known=(),
-              sym=("ec", "md")):
+              sym=("ec", "md"), variants=("src1", "src2")):
     """Id-aligned cells; both sides rewrite the same line of cell `which`
     differently (variants 1 and 2 of its source family, or 5 and 1 plus 2);
     the other cells take arbitrary small actions.  Must be flagged as a
@@ -810,7 +898,7 @@ def make_flag(templates, which=0, other_acts="ACTS_INS", tools=TOOLS, props=("C0
         sl, sr = [], []
         for i, t in enumerate(templates):
             if i == which:
-                a, b_ = ("src1", "src2") if not swap else ("src2", "src1")
+                a, b_ = variants if not swap else (variants[1], variants[0])
                 sl.append(a)
                 sr.append(b_)
             else:
@@ -829,8 +917,9 @@ def make_flag(templates, which=0, other_acts="ACTS_INS", tools=TOOLS, props=("C0
         E.nontrivial(True)
         E.goal("same-line-rewritten")
         E.check("same-line-different-text-is-flagged", any(d.conflict for d in ds))
-        v1 = [ln for ln in G.SRC[fam][1].splitlines() if ln not in G.SRC[fam][0].splitlines()]
-        v2 = [ln for ln in G.SRC[fam][2].splitlines() if ln not in G.SRC[fam][0].splitlines()]
+        k1, k2 = int(variants[0][3:]), int(variants[1][3:])
+        v1 = [ln for ln in G.SRC[fam][k1].splitlines() if ln not in G.SRC[fam][0].splitlines()]
+        v2 = [ln for ln in G.SRC[fam][k2].splitlines() if ln not in G.SRC[fam][0].splitlines()]
         merged_lines = set()
         for s_ in source_lines(m):
             merged_lines.update(s_.splitlines())
@@ -844,6 +933,7 @@ def flag_shards(tier, props, known):
     out = []
     for t in ["codeA", "codeB", "md", "raw", "codeS", "mdAtt", "codeRes2", "codeL", "codeU"]:
         out.append(("make_flag", "flag-%s" % t, dict(templates=(t,), which=0, **kw)))
+    out.append(("make_flag", "flag-whitespace", dict(templates=("codeA",), which=0, variants=("src12", "src13"), **kw)))
     out.append(("make_flag", "flag-pair0", dict(templates=("codeA", "codeB"), which=0, **kw)))
     out.append(("make_flag", "flag-pair1", dict(templates=("codeB", "codeA"), which=1, **kw)))
     if tier == "thorough":
@@ -875,7 +965,7 @@ def with_tool(shards, tool, only=None):
     return out
 
 
-STUBS = ["nbdime.prettyprint.which -> answers according to the tool selector (git / diff3 / builtin); the real git merge-file / diff3 subprocesses run",
+STUBS = ["nbdime.prettyprint.which -> answers according to the tool selector (git / diff3 / builtin / diffonly = plain diff present, git and diff3 absent, PATH of the subprocesses reduced accordingly); the real git merge-file / diff3 subprocesses run",
          "nbformat.v4.nbbase.random_cell_id -> deterministic counter (marker cells get random ids otherwise)",
          "isinstance inside nbdime modules -> sx.values.sym_isinstance (identical on ordinary objects)",
          "nbdime module-level differ tables restored to import-time state between paths",
